@@ -421,6 +421,10 @@ type vrtTgt struct {
 	srv  *vrtSrvStream
 	done chan struct{}
 	up   bool
+	// replaced incarnation that is still open (the target cluster re-established the stream before the proxy noticed the
+	// old one's death): replacetgt / endold
+	old     *vrtSrvStream
+	oldDone chan struct{}
 }
 
 func vrtIsLocal(sm *shardManagerImpl, k history.ClusterShardID) bool {
@@ -518,6 +522,8 @@ func (h *vrtHarness) newSrv(cluster, shard, inc int) *vrtSrvStream {
 // openTgt: target shard t (cluster B) opens its stream to the proxy, as handleStream would run it.
 func (h *vrtHarness) openTgt(t int) bool {
 	tg := h.tgts[t]
+	// a replacement registers over its predecessor: wait for ITS channel
+	prevChan, _ := h.sm.GetRemoteSendChan(history.ClusterShardID{ClusterID: vrtClusterB, ShardID: int32(t)})
 	h.mu.Lock()
 	tg.inc++
 	srv := h.newSrv(vrtClusterB, t, tg.inc)
@@ -535,8 +541,8 @@ func (h *vrtHarness) openTgt(t int) bool {
 	}()
 	key := history.ClusterShardID{ClusterID: vrtClusterB, ShardID: int32(t)}
 	ok := h.waitFor(func() bool {
-		_, reg := h.sm.GetRemoteSendChan(key)
-		return reg && vrtIsLocal(h.sm, key)
+		ch, reg := h.sm.GetRemoteSendChan(key)
+		return reg && vrtIsLocal(h.sm, key) && ch != prevChan
 	}, 2*time.Second)
 	h.mu.Lock()
 	tg.up = true
@@ -808,6 +814,39 @@ func (h *vrtHarness) exec(c vrtCmd) bool {
 			return false
 		}
 		return h.openTgt(c.T)
+	case "replacetgt":
+		// the target cluster re-establishes the stream of shard c.T while its previous incarnation is still open
+		tg := h.tgts[c.T]
+		h.mu.Lock()
+		if !tg.up || tg.old != nil {
+			h.mu.Unlock()
+			return false
+		}
+		tg.old, tg.oldDone = tg.srv, tg.done
+		h.emit(map[string]interface{}{"ev": "TgtReplace", "t": c.T, "inc": tg.srv.inc})
+		h.mu.Unlock()
+		return h.openTgt(c.T)
+	case "endold":
+		// ... and the previous incarnation's stream ends
+		tg := h.tgts[c.T]
+		h.mu.Lock()
+		old, done := tg.old, tg.oldDone
+		tg.old, tg.oldDone = nil, nil
+		if old == nil {
+			h.mu.Unlock()
+			return false
+		}
+		h.emit(map[string]interface{}{"ev": "TgtOldClose", "t": c.T, "inc": old.inc})
+		h.mu.Unlock()
+		old.doBreak()
+		select {
+		case <-done:
+		case <-time.After(5 * time.Second):
+			h.log(map[string]interface{}{"ev": "Stuck", "what": "replaced target stream did not end", "t": c.T})
+			return false
+		}
+		h.log(map[string]interface{}{"ev": "TgtOldGone", "t": c.T, "inc": old.inc})
+		return true
 	case "breaksrc":
 		src := h.srcs[c.S]
 		h.mu.Lock()
@@ -1105,6 +1144,47 @@ func (h *vrtHarness) teardown() bool {
 	return ok
 }
 
+// stallProbe: the cooperative phase (every target connected and taking everything, every source in Recv between batches) did
+// not reach quiescence. Slow is not a verdict; a receiver that has STOPPED READING its source is: the environment keeps taking
+// whatever the senders offer for another 10 s, and a source stream whose receiver is still not back in Recv is reported.
+func (h *vrtHarness) stallProbe() {
+	deadline := time.Now().Add(10 * time.Second)
+	for time.Now().Before(deadline) {
+		for t := 1; t <= h.sched.NT; t++ {
+			tg := h.tgts[t]
+			h.mu.Lock()
+			srv := tg.srv
+			waiting := tg.up && srv != nil && srv.waiting
+			h.mu.Unlock()
+			if waiting {
+				select {
+				case srv.gate <- struct{}{}:
+				default:
+				}
+			}
+		}
+		h.mu.Lock()
+		all := true
+		for _, src := range h.srcs {
+			if src.stream != nil && !src.stream.inRecv {
+				all = false
+			}
+		}
+		h.mu.Unlock()
+		if all {
+			return
+		}
+		time.Sleep(20 * time.Millisecond)
+	}
+	h.mu.Lock()
+	for _, src := range h.srcs {
+		if src.stream != nil && !src.stream.inRecv {
+			h.emit(map[string]interface{}{"ev": "Stalled", "s": src.s})
+		}
+	}
+	h.mu.Unlock()
+}
+
 func (h *vrtHarness) runSchedule(sc *vrtSchedule) (realised int, unrealisedAt int) {
 	h.reset(sc)
 	unrealisedAt = -1
@@ -1112,6 +1192,9 @@ func (h *vrtHarness) runSchedule(sc *vrtSchedule) (realised int, unrealisedAt in
 		if !h.exec(c) {
 			unrealisedAt = i
 			h.log(map[string]interface{}{"ev": "Unrealised", "at": i, "cmd": c})
+			if c.C == "drain" || c.C == "tick" {
+				h.stallProbe()
+			}
 			break
 		}
 		realised++
